@@ -233,7 +233,10 @@ struct St {
 pub struct Shared {
     m: Mutex<St>,
     cvs: Vec<Condvar>,
-    main_cv: Condvar,
+    /// completion is signalled to the main thread through a pipe and awaited with poll(): a relative,
+    /// kernel-measured timeout, so the watchdog never reads a clock the ambient faults may have skewed
+    done_r: i32,
+    done_w: i32,
 }
 
 struct ClientCtx {
@@ -319,7 +322,8 @@ impl Shared {
             self.cvs[next].notify_one();
         } else {
             st.current = MAIN;
-            self.main_cv.notify_one();
+            let b = [1u8];
+            unsafe { libc::write(self.done_w, b.as_ptr() as *const libc::c_void, 1) };
         }
     }
 }
@@ -400,7 +404,9 @@ pub fn execute(spec: &RunSpec, chooser: Chooser, pool: Arc<dyn Pool + Send + Syn
         cells: Vec::new(),
         kinds: spec.threads.iter().map(|ops| ops.iter().map(|o| o.kind.clone()).collect()).collect(),
     };
-    let shared = Arc::new(Shared { m: Mutex::new(st), cvs: (0..n).map(|_| Condvar::new()).collect(), main_cv: Condvar::new() });
+    let mut fds = [0i32; 2];
+    assert!(unsafe { libc::pipe2(fds.as_mut_ptr(), libc::O_CLOEXEC) } == 0);
+    let shared = Arc::new(Shared { m: Mutex::new(st), cvs: (0..n).map(|_| Condvar::new()).collect(), done_r: fds[0], done_w: fds[1] });
 
     let mut handles = Vec::new();
     for tid in 0..n {
@@ -440,7 +446,7 @@ pub fn execute(spec: &RunSpec, chooser: Chooser, pool: Arc<dyn Pool + Send + Syn
                     let inputs_intact = if op.fresh {
                         true
                     } else {
-                        op.args.iter().all(|t| match pool2.get(t) {
+                        op.args.iter().enumerate().all(|(pos, t)| match pool2.get(pos, t) {
                             Some(v) => serde_json::to_string(&*v).map(|s| &s == t).unwrap_or(false),
                             None => true,
                         })
@@ -487,13 +493,15 @@ pub fn execute(spec: &RunSpec, chooser: Chooser, pool: Arc<dyn Pool + Send + Syn
             st.current = next;
             shared.cvs[next].notify_one();
             let mut last_steps = st.steps;
+            drop(st);
             loop {
-                let (g, to) = shared.main_cv.wait_timeout(st, spec.watchdog).unwrap();
-                st = g;
-                if st.current == MAIN && !st.alive.iter().any(|a| *a) {
+                let mut pfd = libc::pollfd { fd: shared.done_r, events: libc::POLLIN, revents: 0 };
+                let r = unsafe { libc::poll(&mut pfd, 1, spec.watchdog.as_millis() as i32) };
+                if r > 0 {
                     break;
                 }
-                if to.timed_out() {
+                if r == 0 {
+                    let st = shared.m.lock().unwrap();
                     if st.steps == last_steps {
                         stalled = Some(format!(
                             "no scheduling point reached for {:?} (thread {} holds the baton at step {}): an uninstrumented blocking primitive is held across a scheduling point, or a call does not terminate",
